@@ -75,12 +75,16 @@ func (s tilingSpec) step(ord int64) int64 { // distance from slot ord to slot or
 	return s.Alt
 }
 
+func (s tilingSpec) inRange(k triple) bool {
+	return k.Pos >= 0 && k.Pos < s.N && k.BP >= s.BPBase && k.BP < s.BPBase+s.BlockNum
+}
+
 func (s tilingSpec) dist(a, b triple) int64 {
 	per := s.N * s.BlockNum
 	d := int64(0)
 	ta, oa := a.Term, s.ordinal(a)
 	for ta < b.Term || (ta == b.Term && oa < s.ordinal(b)) {
-		if oa == per-1 {
+		if oa >= per-1 { // (>= : an out-of-range slot number must not keep the walk going)
 			d += s.TermIv
 			ta++
 			oa = 0
@@ -243,7 +247,7 @@ func auditTiling(s tilingSpec, f func(ns int64) triple, idle func(triple) bool) 
 			continue
 		}
 		p := res.Slots[i-1]
-		if p.K.Term < res.FirstTerm || !less(p.K, sl.K) {
+		if p.K.Term < res.FirstTerm || !less(p.K, sl.K) || !s.inRange(p.K) || !s.inRange(sl.K) {
 			continue
 		}
 		want := s.dist(p.K, sl.K)
